@@ -500,10 +500,57 @@ impl<'a> Iter<'a> {
                 && final(self).rem() == old(self).rem().skip(1),"""),
 ]
 
+
+_E = r"impl<'a, K> Entry<'a, K>\s*\{"
+_FSQ = '<SmallString as vstd::std_specs::convert::FromSpec<Q>>'
+MORE_UNITS = [
+    dict(id='U-qmap.contains_typed', file=F, fn='contains_typed', ctx=_Q, wrap='impl Qualifiers', properties=['C11', 'C12'],
+         contract="""        requires self.wf()
+        ensures r == (valid_key(Q::KEY@) && has_key(self.qualifiers@, lower_ascii_seq(Q::KEY@)))"""),
+    dict(id='U-qmap.get_typed', file=F, fn='get_typed', ctx=_Q, wrap='impl Qualifiers', properties=['C11', 'C12'],
+         contract="""        requires self.wf()
+        ensures r is Some == (valid_key(Q::KEY@) && has_key(self.qualifiers@, lower_ascii_seq(Q::KEY@)))"""),
+    dict(id='U-qmap.try_insert_typed', file=F, fn='try_insert_typed', ctx=_Q, wrap='impl Qualifiers', properties=['C11', 'C12', 'C06', 'C09'],
+         # documented panic: KEY must be a valid key  => precondition
+         contract="""        requires old(self).wf(), valid_key(Q::KEY@)
+        ensures final(self).wf(),
+            exists|x: Result<SmallString, <SmallString as TryFrom<Q>>::Error>| #[trigger] <SmallString as TryFrom<Q>>::try_from_rel(value, x) && match x {
+                Err(e) => r == Err::<(), <SmallString as TryFrom<Q>>::Error>(e) && final(self).qualifiers@ == old(self).qualifiers@,
+                Ok(val) => r is Ok && ({
+                    let k = lower_ascii_seq(Q::KEY@);
+                    let p = pos_of(old(self).qualifiers@, k);
+                    if has_key(old(self).qualifiers@, k) {
+                        final(self).qualifiers@ == old(self).qualifiers@.update(p, (old(self).qualifiers@[p].0, val))
+                    } else {
+                        final(self).qualifiers@.len() == old(self).qualifiers@.len() + 1 && final(self).qualifiers@[p].0.0@ == k
+                        && final(self).qualifiers@ == old(self).qualifiers@.insert(p, (final(self).qualifiers@[p].0, val))
+                    }
+                }),
+            }""",
+         begin='        proof { axiom_string_from(); }',
+         rw=[('R9', r'SmallString::try_from\(value\)', '<SmallString as TryFrom<Q>>::try_from(value)', '*')]),
+    dict(id='U-qmap.Entry.or_insert', file=F, fn='or_insert', ctx=_E, wrap="impl<'a, K: AsRef<str>> Entry<'a, K>", properties=['C11'],
+         contract="""        requires match self { Entry::Occupied(o) => o.wf(), Entry::Vacant(v) => v.wf() }
+        ensures
+            self is Occupied ==> ({
+                let ix = self->Occupied_0.index as int;
+                *r == old(self->Occupied_0.qualifiers)@[ix].1
+                && final(self->Occupied_0.qualifiers)@ == old(self->Occupied_0.qualifiers)@.update(ix, (old(self->Occupied_0.qualifiers)@[ix].0, *final(r)))
+                && wf_seq(final(self->Occupied_0.qualifiers)@)
+            }),
+            self is Vacant ==> ({
+                let ix = self->Vacant_0.index as int;
+                wf_seq(final(self->Vacant_0.qualifiers)@)
+                && final(self->Vacant_0.qualifiers)@.len() == old(self->Vacant_0.qualifiers)@.len() + 1
+                && final(self->Vacant_0.qualifiers)@[ix].0.0@ == self->Vacant_0.key.canon()
+                && final(self->Vacant_0.qualifiers)@ == old(self->Vacant_0.qualifiers)@.insert(ix, (final(self->Vacant_0.qualifiers)@[ix].0, *final(r)))
+            }),"""),
+]
+
 GROUP = dict(
     name='qual',
     theory=['base.rs'],
     uses='use core::cmp::Ordering;\nuse core::marker::PhantomData;\nuse core::mem;\nuse core::slice;',
     canary='    axiom_string_from(); broadcast use axiom_ascii_to_lower; broadcast use axiom_view_of_str; axiom_from_keeps_text::<&str>();',
-    units=[_c.PURL_FIELD, _c.PARSE_ERROR, _c.QUALIFIER_KEY, _c.QUALIFIERS] + KEY_UNITS + CMP_UNITS + MAP_UNITS + MAP_UNITS2 + MAP_UNITS3 + MAP_UNITS4 + TYPED_UNITS + ITER_UNITS,
+    units=[_c.PURL_FIELD, _c.PARSE_ERROR, _c.QUALIFIER_KEY, _c.QUALIFIERS] + KEY_UNITS + CMP_UNITS + MAP_UNITS + MAP_UNITS2 + MAP_UNITS3 + MAP_UNITS4 + TYPED_UNITS + ITER_UNITS + MORE_UNITS,
 )
